@@ -32,23 +32,23 @@ TEXT = {
          "Not proved. p2p method and concatenate3 are not covered.", TB),
  "C15": ("divide_to_width is proved from the real source for all inputs (sum preserved, width bound, the code's own assert). Plan-level clauses (finite list of chunkings ending in the new chunking, budget) and the crosswalk are bounded stand-ins; F3 is a recorded known finding.",
          BASE + "plan_rechunk, find_merge_rechunk, _bound_degree, merge_to_number and old_to_new/_intersect_1d are bounded only.", T),
- "C16": ("Uniform layouts (blockdims_from_blockshape, rank 1 and 2) and round_to are proved from the real source for all inputs. normalize_chunks over all specification kinds and the 'auto' byte bound are a bounded stand-in; F4 is a recorded known finding with the residual bound limit x tolerance enforced.",
+ "C16": ("Uniform layouts (blockdims_from_blockshape, _convert_int_chunk_to_tuple, normalize_chunks for integer and explicit-tuple specifications, rank 1 and 2) and round_to are proved from the real source for EVERY integer size: the preconditions no longer assume positive sizes, so the refusal of negative sizes, of 0 on a non-empty axis and of negative entries in explicit tuples is part of what is proved. normalize_chunks over all specification kinds and the 'auto' byte bound are a bounded stand-in; F4 is a recorded known finding with the residual bound limit x tolerance enforced.",
          BASE + "auto_chunks uses x**(1/k) and medians: bounded only.", T),
  "C17": ("moved_fraction is proved in [0,1], 0 for identical layouts and 0 for pure splits from the real loops (with termination). The merging walk of common_blockdim is proved as a fragment for two and three non-trivial layouts: same total, positive blocks, every boundary of every input kept (the layout only splits). common_blockdim's prologue and unify_chunks_expr (one common layout, refine only splits, no growth beyond the limit, values) are bounded stand-ins over policies and limits.",
          BASE + "unify_chunks_expr's cost logic is bounded only.", T),
- "C18": ("Proved for all inputs (rank 1, keepdims): one partial-reduction layer with group size k leaves ceil(n/k) unit blocks on the reduced axis (PartialReduce.chunks), and the cascade built by _build_tree_reduce_expr -- depth-1 partial layers and the aggregate layer -- leaves exactly one block, given the depth bound k**depth >= n of the float logarithm (assumed there, validated by a bounded contract); nested-ceiling lemma proved. Bounded stand-in for the values: 28 reducers (incl. central moments of order 3-5, ptp, count_nonzero, average, topk) over axes, keepdims, split_every and layouts equal NumPy; the reduction tree reaches one block (depth bound incl. the float logarithm) for n up to 2000 (quick) / 200000 blocks.",
+ "C18": ("Proved for all inputs (keepdims): one partial-reduction layer with group size k leaves ceil(n/k) unit blocks on every reduced axis and keeps the others (PartialReduce.chunks, rank 1-3); the canonical fan-in is >= 2 on every reduced axis and absent elsewhere (_normalize_split_every, int and dict forms, one and two axes); and the cascade built by _build_tree_reduce_expr -- depth-1 partial layers and the aggregate layer -- leaves exactly one block on every reduced axis and keeps the block count of the others (rank 1; rank 2 with one or both axes reduced), given the depth bound k**depth >= n of the float logarithm (assumed there, validated on the real function by a bounded contract); nested-ceiling and power-monotonicity lemmas proved by the induction schema. Bounded stand-in for the values: 28 reducers (incl. central moments of order 3-5, ptp, count_nonzero, average, topk) over axes, keepdims, split_every and layouts equal NumPy; the reduction tree reaches one block (depth bound incl. the float logarithm) for n up to 2000 (quick) / 200000 blocks.",
          BASE + "The values (combine / aggregate kernels, numerical associativity) are bounded only; toolz.partition_all is modelled (validated against the library each run); the depth bound is assumed.", TB),
  "C19": ("ensure_minimum_chunksize is proved from the real loop for all inputs (total kept, every chunk >= size, or ValueError exactly when the axis is shorter). The guards supports_native_sliding_window / supports_native_moving_window and the banded plans SlidingWindowReduction._block_plan / MovingWindowReduction._block_plan (rows with None and range columns) are proved; for the sliding plan: under the guard, window t of block q is exactly the block's suffix from t, the whole middle blocks and the first band_offset+t+1 elements of the band blocks b..e. sliding_window_view alone and under reductions (windows larger than a block), overlap boundaries, diff, gradient and cumulative scans are bounded stand-ins against the NumPy definitions.",
          BASE + "The NumPy kernels fed by the plans, overlap and scans are bounded only.", T),
- "C20": ("The layout barrier ChunksFreeze.lower_once is proved on every path (frozen layout or raise) by record abstraction and _chunks_match is proved to be equality of block sizes; the block_info / block_id payload of map_blocks is a bounded stand-in over the catalogue including layout-drifting inputs.",
+ "C20": ("The layout barrier ChunksFreeze.lower_once is proved on every path (frozen layout or raise) by record abstraction and _chunks_match is proved to be equality of block sizes; Blockwise._idx_to_block (rank 1-3) is proved to give every output label -- also a new axis -- the output block's own coordinate, and ArrayExpr._preserve_grid_contract to let a pushdown through only when it keeps the grid; the block_info / block_id payload of map_blocks is a bounded stand-in over the catalogue including layout-drifting inputs and multi-chunk new axes.",
          BASE + "Assumed contracts on lower_once/rechunk/cache; payload arithmetic bounded only.", T),
- "C24": ("Region composition (_compose_slices, all steps), sliced chunk sizes (_compute_sliced_chunks) and the slice-into-source rewrite (FromArray._accept_slice: the new region keeps unit steps - what the offset reads of _layer require -, equals the composition, chunks add up) are proved from the real source for all inputs; that every request to a recording source is an in-bounds basic slice returning NumPy's elements is a bounded stand-in, also with the NumPy eager-slice limit set to 0.",
+ "C24": ("Region composition (_compose_slices, all steps), sliced chunk sizes (_compute_sliced_chunks) and the slice-into-source rewrite (FromArray._accept_slice: the new region keeps unit steps - what the offset reads of _layer require -, equals the composition, chunks add up; on the eager-copy path of in-memory sources the copied elements are that same composition, by a ghost origin region on the new source) are proved from the real source for all inputs; that every request to a recording source is an in-bounds basic slice returning NumPy's elements is a bounded stand-in, also with the NumPy eager-slice limit set to 0.",
          BASE + "_layer and _accept_rechunk are bounded only; rank > 1 by the per-axis structure of the code.", T),
  "C25": ("The region/block index composition store relies on (fuse_slice: slice, integer and tuple-of-slices cases at rank 1 and 2, _normalize_slice_for_fusion) is proved from the real source for all inputs, and so is the store kernel load_store_chunk at rank 1 (effect log: exactly one element store into the target, at region composed with the block index, the block as value; none for an empty block). End-to-end writes (whole target, offset and strided regions, several pairs, delayed, return_stored) are a bounded stand-in over the catalogue; F8 is a recorded known finding.",
          BASE + "load_store_chunk's single write site is covered by the C10 frame analysis; npy-stack round trip and locks are not covered.", T),
  "C26": ("Decided for all import orders by a static import-effect analysis over every dask_array module: nothing executed at import time can reach xarray registration; register() is the only caller of _ensure_registered; no entry point.",
          "Trusted: Python's import semantics as modelled (module top levels, class bodies, decorators, defaults). The 'same values' clause and xarray's own plugin discovery are not decided.", TF),
- "C27": ("moved_fraction's range, its zero on identical layouts and on pure splits, _rechunk_stage_transfer (one and two axes, known sizes: 0 <= min <= max, never NaN), and the overrides SliceSlicesIntegers.transfer_bytes, SlidingWindowReduction.transfer_bytes and MovingWindowReduction.transfer_bytes (rank 1, through the per-block plan contracts) are proved from the real loops. 'Same chunks move nothing' and every node's transfer_bytes (raw, optimised and materialised expressions of the catalogue) are bounded stand-ins.",
+ "C27": ("moved_fraction's range, its zero on identical layouts and on pure splits, _rechunk_stage_transfer (one and two axes, known sizes: 0 <= min <= max, never NaN), and the overrides SliceSlicesIntegers.transfer_bytes, SlidingWindowReduction.transfer_bytes, MovingWindowReduction.transfer_bytes, PartialReduce.transfer_bytes (rank 1), Blockwise.transfer_bytes (three index patterns) and the ArrayExpr default are proved from the real code. 'Same chunks move nothing' and every node's transfer_bytes (raw, optimised and materialised expressions of the catalogue) are bounded stand-ins.",
          BASE + "The transfer_bytes overrides are bounded only.", T),
  "C28": ("Proved for all inputs: a non-trivial basic index on an axis of unknown size is refused (slice_slices_and_integers, four typed specialisations), a rechunk along an unknown axis is accepted only when the layout is unchanged (_validate_rechunk, six specialisations), and the index helpers leave indices untouched on NaN axes. Bounded stand-in for the main statement: compute_chunk_sizes gives the true block sizes over the catalogue and boolean-mask selections, and every operation on an unknown-size array either refuses or equals NumPy (F9 is a recorded known finding). Proved in addition: the index helpers leave indices untouched on NaN axes (normalize_slice / posify_index / check_index).",
          "Mostly bounded; the proved part is small.", TB),
@@ -80,7 +80,11 @@ for pid in sorted(TEXT):
 m["checks"] = checks
 m["not_applicable"] = [{"property_id": p, "reason": r} for p, r in NA.items()]
 m["engines"][0]["serves_properties"] = sorted(TEXT)
-m["notes"] = ("No hooks in /repo; 22 unguarded fix: commits (see DESIGN.md 8.3 and known_findings.jsonl). "
+_kf = [l for l in open("/verif/known_findings.jsonl") if l.strip()]
+_nfixed = len({l.split()[2] for l in _kf if l.startswith("fixed:")})  # distinct fix: commits (one commit may close two records)
+_nknown = sum(1 for l in _kf if l.startswith("{"))
+m["notes"] = (f"No hooks in /repo; {_nfixed} unguarded 'fix:' commits repairing genuine defects in /repo and {_nknown} known-finding "
+              "records kept open (DESIGN.md 8.3, 8.4, 8.7-8.14 and known_findings.jsonl). "
               "exit codes: 0 held, 1 violation, 2 undecided, 3 checker failure.")
 json.dump(m, open("/verif/MANIFEST.json", "w"), indent=1)
 print(len(checks), "checks;", len(m["not_applicable"]), "not applicable")
